@@ -197,14 +197,14 @@ CHECKS = {
 
 # extensions made after the seeded-change rounds (appended to the level text)
 EXT = {
-    "C01": "The same sessions are also run with permessage-deflate negotiated (messages compressed by a reference peer according to a drawn mask) and over the record-oriented TLS model (record sizes 1..16384, with and without read-ahead). Cases may be preceded by an earlier connection in the same process (same WebSocket object or another one) that ended in one of 19 abnormal ways; a fixed battery is run after every such ending. Cases may run with a second live connection in the same process (interleaved at events and after reads, or blocked inside a send). The application may also make calls with unsendable arguments (and catch the error) at drawn events: they must leave no trace. Negotiated window sizes and no_context_takeover flags are drawn too, and every window pair x flag combination is enumerated with payloads whose back-references span the peer's window inside a message and into earlier messages. The 15 special code points are enumerated as text (whole, split inside the character, compressed), as binary and as close reason. Cases may run with DEBUG logging switched on for the library (every record formatted by a handler); the fixed battery is enumerated that way. The fixed battery also runs through an HTTP proxy (ws and wss) and with each of its automatic Pongs failing to be written (timeout, transient error, EINTR, EAGAIN): the messages are delivered all the same. The application may call close() at any message while the server keeps sending (the battery enumerated at Ready and at each of the first messages, plain and compressed): everything is still delivered, and the server's Close is then reported as Closed.",
-    "C02": "The alternative segmentation may additionally go through the TLS model (reads cut at record boundaries, sized by pending()). In the thorough tier 16 atheris (libFuzzer) processes fuzz (cut list, stream bytes) against the same oracle, half from the catalogue corpus, half from an empty corpus. For conforming sessions a third delivery - one frame per read - is compared as well, because two deliveries that both put a frame boundary inside a read can be wrong in the same way. The catalogue and the reply-cut enumeration include payloads that look like what the handshake parser waits for (CRLFCRLF and pieces of it).",
+    "C01": "The same sessions are also run with permessage-deflate negotiated (messages compressed by a reference peer according to a drawn mask) and over the record-oriented TLS model (record sizes 1..16384, with and without read-ahead). Cases may be preceded by an earlier connection in the same process (same WebSocket object or another one) that ended in one of 19 abnormal ways; a fixed battery is run after every such ending. Cases may run with a second live connection in the same process (interleaved at events and after reads, or blocked inside a send). The application may also make calls with unsendable arguments (and catch the error) at drawn events: they must leave no trace. Negotiated window sizes and no_context_takeover flags are drawn too, and every window pair x flag combination is enumerated with payloads whose back-references span the peer's window inside a message and into earlier messages. The 15 special code points are enumerated as text (whole, split inside the character, compressed), as binary and as close reason. Cases may run with DEBUG logging switched on for the library (every record formatted by a handler); the fixed battery is enumerated that way. The fixed battery also runs through an HTTP proxy (ws and wss) and with each of its automatic Pongs failing to be written (timeout, transient error, EINTR, EAGAIN): the messages are delivered all the same. The application may call close() at any message while the server keeps sending (the battery enumerated at Ready and at each of the first messages, plain and compressed): everything is still delivered, and the server's Close is then reported as Closed. The application may also send (text and binary) while handling the k-th message - enumerated over the window grid: a send must leave the receiving side alone.",
+    "C02": "The alternative segmentation may additionally go through the TLS model (reads cut at record boundaries, sized by pending()). In the thorough tier 16 atheris (libFuzzer) processes fuzz (cut list, stream bytes) against the same oracle, half from the catalogue corpus, half from an empty corpus. For conforming sessions a third delivery - one frame per read - is compared as well, because two deliveries that both put a frame boundary inside a read can be wrong in the same way. The catalogue and the reply-cut enumeration include payloads that look like what the handshake parser waits for (CRLFCRLF and pieces of it). Replies that are no upgrade at all (ICY, a leading empty line, 404, lower-case status line, SSH banner, TLS bytes, a body behind the header) are enumerated under every single cut and every uniform chunk size.",
     "C04": "Classes include invalid UTF-8 in a non-final fragment after an interleaved control frame and masked non-final fragments; every header under test is followed by a final continuation, so a wrongly accepted fragment is completed and delivered. The thorough tier adds 16 atheris processes that fuzz arbitrary frame streams (through a small frame grammar) against the reference reading. A third extension context (offered by the client, declined by the server) runs through the enumeration (6 contexts) and the generated part. Cases may be preceded by an earlier connection in the same process (same WebSocket object or another one) that ended in one of 19 abnormal ways; a fixed battery is run after every such ending. Cases may run with a second live connection in the same process (interleaved at events and after reads, or blocked inside a send). The application may also make calls with unsendable arguments (and catch the error) at drawn events: they must leave no trace. What the violating frame carries may look like a format template (braces, % directives): every class x variant x 5 such payloads is enumerated. Cases may run with DEBUG logging switched on for the library (every record formatted by a handler); the fixed battery is enumerated that way. A scheduled stage (the C11/C12 scheduler; every thread order x every single preemption) lets the event loop meet the violation while another thread closes or sends: at most one Close frame, nothing after it.",
     "C06": "Header spellings include white space around '=' and ';' (RFC 2616 implied LWS), quoting, omitted defaults and parameter order; the 256-configuration battery rotates through six spelling presets. The reference peer also ends messages with a BFINAL block + 0x00 (RFC 7692 7.2.3.4). Cases may be preceded by an earlier connection in the same process (same WebSocket object or another one) that ended in one of 19 abnormal ways; a fixed battery is run after every such ending. Cases may run with a second live connection in the same process (interleaved at events and after reads, or blocked inside a send). The application may also make calls with unsendable arguments (and catch the error) at drawn events: they must leave no trace. A scheduled stage (the deterministic scheduler and oracle of C11; every thread order x every single preemption, and an early first preemption x every second one) runs concurrent compressed senders with and without client_no_context_takeover. Cases may run with DEBUG logging switched on for the library. The header line itself is spelled too: casing of its name, white space around the value, and the value folded over two lines at any of its spaces (five more battery presets).",
     "C07": "Histories may end with EOF, reset or a server that stays connected and silent (then a configured ping/close timeout must end the iteration); a further enumeration injects one failed write (3 positions x 2 kinds) into 2-step histories; three option sets. Endings also include a fatal TLS error / routing failure that every later read repeats (over wss://). Cases may run with a second live connection in the same process (interleaved at events and after reads, or blocked inside a send). The alphabet includes a frame exactly as long as the 64 KiB receive buffer. A further enumeration runs histories through an HTTP proxy that answers 200, refuses, sends garbage, stalls, drops or resets during the CONNECT exchange (ws and wss). Application policies include handlers that take longer than the poll interval; a negative selector timeout blocks like poll() does. A further ender, 'chatter', keeps the connection readable for ever without ever completing a frame (one byte every 0.9 s): the timers must still run. The simulated socket has no descriptor after close() and the selector constructor refuses such a socket, as the real selectors do. The client's clock has a realistic epoch (2**31 s), not zero.",
     "C08": "Close reasons are drawn at the boundary sizes (0, 120-123 bytes, 1-4 byte characters), close codes include 1012/1013, close_timeout is None, 0 (both documented as disabled) or 30 s. Cases may be preceded by an earlier connection in the same process (same WebSocket object or another one) that ended in one of 19 abnormal ways; a fixed battery is run after every such ending. Cases may run with a second live connection in the same process (interleaved at events and after reads, or blocked inside a send). The application may also make calls with unsendable arguments (and catch the error) at drawn events: they must leave no trace. A further mode lets the server's Close cross the application's close() in one read. The write that carries the client's Close (own or echo) may fail without breaking the transport (enumerated x close_timeout x EOF timing x sends): the attempt then stands for the frame and the statement's outcomes are still demanded. Cases may run with DEBUG logging switched on for the library (every record formatted by a handler); the fixed battery is enumerated that way. Cases also run over TLS and with permessage-deflate negotiated (the small battery enumerated x ws/wss x plain/default/non-default parameters).",
-    "C09": "Non-fatal write faults are re-run with a server that then stays silent: if the closing handshake had been started the connection must still end by itself (close timeout). On wss:// the TLS handshake of the first j of n addresses fails after a successful TCP connect (reset, EOF, certificate error, timeout), and truncated streams also end in a persistent TLS error. Cases may run with a second live connection in the same process (interleaved at events and after reads, or blocked inside a send). Optionally the connection goes through an HTTP proxy; its answer to CONNECT is then cut at every byte offset. Every injected error text contains characters special to str.format and % formatting. A permessage-deflate dimension lets the application's sends pass through the compressor before a write fails; a fixed battery (plain/deflate x ws/wss x direct/proxy x closing order) is enumerated. Each selector-wait position is also run with that wait and every later one failing (a descriptor gone bad): swallowing the error must not turn into spinning for ever. On the socket of an established connection whose transport had not failed close() must have been CALLED (finalisation of the socket object alone counts only before Connected and after a transport failure, where shutdown() fails and lomond skips close()).",
-    "C11": "19 scenarios, incl. client_no_context_takeover and mixed compressed / uncompressed / control senders; three-thread scenarios additionally get a chained second preemption (right after the thread switched to has finished, hand over to the third thread). Six more scenarios use 300-byte and hardly compressible 70 000-150 000-byte payloads racing with small frames. Scheduled runs use the library's own masking-key source. Payloads differ in length and prefix per sender and call, so that a back-reference computed in one sender's private history lands on different bytes in the wire history. For the deflate scenarios an early first preemption (first 24 steps) is combined with every second preemption in both tiers (first-use races). Three more scenarios let the event loop inflate compressed server messages (and answer a Ping) while other threads deflate theirs (default parameters, client_no_context_takeover, both flags). The harness replaces only a real _thread.lock of the session; a write lock the library builds itself stays under test (the shim provides scheduler-aware Lock, RLock and Condition, with timed waits timing out once nothing else can run). A further sweep combines a first preemption inside a locked write with every second preemption (2 x 2 scenario). Three-thread scenarios also get three-preemption chains: a first preemption inside a locked write, hand-over to the third thread when the second blocks, then a third preemption at every later write / lock / condition point. The four-call client_no_context_takeover scenario is part of the early-first x second preemption sweep (quick tier: second preemptions inside the extension's code and at write / lock points; thorough: everywhere). Two content-overlap scenarios: random bytes that deflate cannot shrink against a payload that repeats them.",
+    "C09": "Non-fatal write faults are re-run with a server that then stays silent: if the closing handshake had been started the connection must still end by itself (close timeout). On wss:// the TLS handshake of the first j of n addresses fails after a successful TCP connect (reset, EOF, certificate error, timeout), and truncated streams also end in a persistent TLS error. Cases may run with a second live connection in the same process (interleaved at events and after reads, or blocked inside a send). Optionally the connection goes through an HTTP proxy; its answer to CONNECT is then cut at every byte offset. Every injected error text contains characters special to str.format and % formatting. A permessage-deflate dimension lets the application's sends pass through the compressor before a write fails; a fixed battery (plain/deflate x ws/wss x direct/proxy x closing order) is enumerated. Each selector-wait position is also run with that wait and every later one failing (a descriptor gone bad): swallowing the error must not turn into spinning for ever. On the socket of an established connection whose transport had not failed close() must have been CALLED (finalisation of the socket object alone counts only before Connected and after a transport failure, where shutdown() fails and lomond skips close()). Every faulted execution ends with three sends made after the event iterator has ended: they must raise a WebSocketError.",
+    "C11": "19 scenarios, incl. client_no_context_takeover and mixed compressed / uncompressed / control senders; three-thread scenarios additionally get a chained second preemption (right after the thread switched to has finished, hand over to the third thread). Six more scenarios use 300-byte and hardly compressible 70 000-150 000-byte payloads racing with small frames. Scheduled runs use the library's own masking-key source. Payloads differ in length and prefix per sender and call, so that a back-reference computed in one sender's private history lands on different bytes in the wire history. For the deflate scenarios an early first preemption (first 24 steps) is combined with every second preemption in both tiers (first-use races). Three more scenarios let the event loop inflate compressed server messages (and answer a Ping) while other threads deflate theirs (default parameters, client_no_context_takeover, both flags). The harness replaces only a real _thread.lock of the session; a write lock the library builds itself stays under test (the shim provides scheduler-aware Lock, RLock and Condition, with timed waits timing out once nothing else can run). A further sweep combines a first preemption inside a locked write with every second preemption (2 x 2 scenario). Three-thread scenarios also get three-preemption chains: a first preemption inside a locked write, hand-over to the third thread when the second blocks, then a third preemption at every later write / lock / condition point. The four-call client_no_context_takeover scenario is part of the early-first x second preemption sweep (quick tier: second preemptions inside the extension's code and at write / lock points; thorough: everywhere). Two content-overlap scenarios: random bytes that deflate cannot shrink against a payload that repeats them. One more three-thread scenario has three compressing senders.",
     "C12": "18 scenarios, incl. three-actor ones (sender, pinger = application ping / the loop's pong / the loop's automatic ping, closer) with a chained second preemption as in C11. Three more scenarios cover the other shapes of a Close frame (server Close without a body echoed by the loop, close() without a code, maximal reason). Four more scenarios race 300-byte and 140 000-150 000-byte frames with an application Close and with the loop's echo of the server's Close. A first preemption inside a locked write x every second preemption is swept for close() against a thread that sends twice. Three-thread scenarios also get the three-preemption chains described under C11 (two waiters queued behind a writer). Two more scenarios: the loop fails the connection for a protocol violation (reserved opcode; invalid UTF-8) while the application closes / sends.",
     "C13": "A fifth mechanism keeps the generator alive while the same WebSocket connects again and drops it afterwards. The socket must have been close()d by the library (finalisation alone counts only after a reset, where lomond skips close()). Cases optionally carry one failing write before the abandonment. Cases may run with a second live connection in the same process (interleaved at events and after reads, or blocked inside a send). Two more mechanisms finalise the generator on ANOTHER thread (gen.close() there, last reference dropped there). Optionally through an HTTP proxy. TLS unwrap() is modelled as fallible I/O (it fails while application data is in flight or when the peer is gone). A scheduled stage (the C11 scheduler; every thread order x every single preemption) lets the consumer call gen.close() at a Text event while one or two other threads are inside send_* on the same connection (also a 70 000-byte compressed frame): the socket must have been close()d when all threads are done, and nothing may dead-lock. Every abandonment point x mechanism is also run after every kind of earlier connection, incl. earlier connections made inside a 'with ws:' block on the same object. A seventh mechanism leaves a with-block by an exception whose text is long, multi-byte and full of format characters.",
     "C14": "A scheduled stage (the C11/C12 scheduler; every thread order x every single preemption) races a sender thread with the event loop answering two Pings while the loop's consumer reacts to each Ping event: each Pong must precede the reaction on the wire. With permessage-deflate negotiated (any parameters) the data messages selected by a mask are sent compressed, so Pings also arrive between compressed fragments. Cases may be preceded by an earlier connection in the same process (same WebSocket object or another one) that ended in one of 19 abnormal ways; a fixed battery is run after every such ending. Cases may run with a second live connection in the same process (interleaved at events and after reads, or blocked inside a send). The application may also make calls with unsendable arguments (and catch the error) at drawn events: they must leave no trace. A protocol-violating frame (9 classes) may follow the conforming stream, also in the same read: every Ping before it must still be answered. Two more scheduled scenarios put a thread calling close() against the loop answering Pings: a Ping handed to the application before any Close frame was written must have been answered. Cases may run with DEBUG logging switched on for the library (every record formatted by a handler); the fixed battery is enumerated that way. Pings before, between and behind messages of 64 KiB and more, delivered in buffer-filling reads, are enumerated with automatic Pongs on and off (plain and deflate).",
@@ -214,8 +214,8 @@ EXT = {
     "C15": "After close() the application may call close() again / send at drawn times while the handshake is pending (the grid closes again every second): no deadline may move. Cases may run with a second live connection in the same process (interleaved at events and after reads, or blocked inside a send). auto_pong is drawn too, and arrivals include a frame exactly as long as the receive buffer. The application may also make calls with unsendable arguments (and catch the error) at drawn events: they must leave no trace. The server may start the closing handshake and then never drop the connection: the client's echo is a Close sent by the client, and close_timeout must cut the connection within [c, c + p] after it. The write of the client's Close may take (virtual) time: the deadline counts from when it has gone out, and the oracle treats the event loop as busy meanwhile. A connection on which no closing handshake was started and no ping timeout is due must last until the server's EOF; the grid also runs close() calls that are refused for their arguments. The client's clock has a realistic epoch.",
     "C17": "Previous connections may also be abandoned with the generator kept referenced and finalised only right after the next connect() call or at a drawn event of the next connection (enumerated: 9 abandon points x 7 release points). Previous connections and B negotiate their permessage-deflate parameters independently; the fresh-object reference runs before the chain. Chains may run through an HTTP proxy (an earlier attempt ending inside the proxy's answer; B's answer under its own segmentation; enumerated for every kind of previous ending). Chains may run on an object the application configured before the first connect (custom request headers incl. names the client sends itself, sub-protocols, agent string), enumerated for every kind of previous ending. Chains also run over TLS, and after a previous connection that received a corrupt or a truncated compressed message with B negotiating the same parameters again.",
     "C16": "Long outages (1100 and 2500 consecutive failures, with and without a Ready in the middle) are enumerated; an attempt that ends without a BackOff is reported after 3 surplus attempts. The real driver's consumer may call close() / send_text() at the first Connecting / Connected / Ready / Poll / Text event of an attempt (enumerated for every outcome). Outcomes include rejections carrying Retry-After (seconds and HTTP-date), Location, Refresh and Keep-Alive headers and a Close with code 1013 'try again in 120 s' (every sequence of length 4, both drivers): the delay stays within persist()'s own bounds.",
-    "C18": "Frame shapes (empty binary/text, text ended by an empty final fragment) are drawn per frame and enumerated as the last frame of a read; bursts can be padded to exact multiples of the 64 KiB buffer; the TLS model also has a read-ahead variant whose pending() may exceed a record. Cases may run with a second live connection in the same process (interleaved at events and after reads, or blocked inside a send). The application may also make calls with unsendable arguments (and catch the error) at drawn events: they must leave no trace. Large messages also come as text of 2-/3-/4-byte characters shifted so that read, record and fragment boundaries fall inside characters. A protocol-violating frame (5 classes) may follow the last burst in the same arrival: everything complete in front of it must still be delivered and answered. The k-th automatic Pong may fail to be written (timeout / transient error) while more messages have already arrived: they are still delivered in their arrival cycle (enumerated). Pings with non-text payloads may sit between the fragments of fragmented messages (enumerated over the size grid). Cases may run with DEBUG logging switched on for the library. Bursts also run with permessage-deflate negotiated (default and non-default parameters).",
-    "C19": "26 reply classes incl. glued / malformed status tokens; an explicit empty mapping is tested with HTTP(S)_PROXY set in the environment. Cases may be preceded by an earlier attempt through the proxy (same or another object; reply complete or cut short; EOF or reset), enumerated for 6 earlier replies x cuts x 5 current replies. Another application thread may call a send method while the connecting thread is blocked in getaddrinfo / connect / recv of the proxy's answer / the TLS handshake (enumerated: op x ordinal x send kind x reply x ws/wss). Target hosts include IPv6 literals. Reply classes include malformed status lines (FS/GS/RS/US separators, +200 / 0200 / 2_0_0). 200 answers of 16378-16390 bytes are enumerated with cuts at the last positions. With an explicit mapping, proxy-related variables of the real process environment (NO_PROXY/no_proxy with '*', the host or suffixes; lower-case http_proxy; ALL_PROXY) are enumerated x mapping kind x target host: the mapping alone decides. An injected recv fault counts against the tunnel iff it struck before the whole answer had been handed over. Proxy credentials with percent-encoded reserved characters (/, ?, #, @, :, %) are enumerated x port x ws/wss.",
+    "C18": "Frame shapes (empty binary/text, text ended by an empty final fragment) are drawn per frame and enumerated as the last frame of a read; bursts can be padded to exact multiples of the 64 KiB buffer; the TLS model also has a read-ahead variant whose pending() may exceed a record. Cases may run with a second live connection in the same process (interleaved at events and after reads, or blocked inside a send). The application may also make calls with unsendable arguments (and catch the error) at drawn events: they must leave no trace. Large messages also come as text of 2-/3-/4-byte characters shifted so that read, record and fragment boundaries fall inside characters. A protocol-violating frame (5 classes) may follow the last burst in the same arrival: everything complete in front of it must still be delivered and answered. The k-th automatic Pong may fail to be written (timeout / transient error) while more messages have already arrived: they are still delivered in their arrival cycle (enumerated). Pings with non-text payloads may sit between the fragments of fragmented messages (enumerated over the size grid). Cases may run with DEBUG logging switched on for the library. Bursts also run with permessage-deflate negotiated (default and non-default parameters). A scheduled stage (the C11 scheduler; every thread order x every single preemption) gives the event loop the processor while another thread of the same connection sits between the halves of its socket write: what has arrived must be delivered before that write finishes.",
+    "C19": "26 reply classes incl. glued / malformed status tokens; an explicit empty mapping is tested with HTTP(S)_PROXY set in the environment. Cases may be preceded by an earlier attempt through the proxy (same or another object; reply complete or cut short; EOF or reset), enumerated for 6 earlier replies x cuts x 5 current replies. Another application thread may call a send method while the connecting thread is blocked in getaddrinfo / connect / recv of the proxy's answer / the TLS handshake (enumerated: op x ordinal x send kind x reply x ws/wss). Target hosts include IPv6 literals. Reply classes include malformed status lines (FS/GS/RS/US separators, +200 / 0200 / 2_0_0). 200 answers of 16378-16390 bytes are enumerated with cuts at the last positions. With an explicit mapping, proxy-related variables of the real process environment (NO_PROXY/no_proxy with '*', the host or suffixes; lower-case http_proxy; ALL_PROXY) are enumerated x mapping kind x target host: the mapping alone decides. An injected recv fault counts against the tunnel iff it struck before the whole answer had been handed over. Proxy credentials with percent-encoded reserved characters (/, ?, #, @, :, %) are enumerated x port x ws/wss. The CONNECT request must carry exactly one Host line, for this target, and no header twice (also after earlier attempts in the same process).",
 }
 
 PENDING = {}
